@@ -357,6 +357,15 @@ def canon(e, env):
             return 'IsNone::not_none'          # eta: |x| x.not_none()
         if len(names) == 1 and body_ == '!VALID(%s)' % names[0]:
             return 'IsNone::is_none'
+        # eta: |a, b| a.m(b) is the path Trait::m
+        b_ = peel(e['ch'][0])
+        while b_.get('k') == 'Block' and not b_.get('stmts') and 'expr' in b_:
+            b_ = peel(b_['expr'])
+        if len(names) >= 2 and b_.get('k') == 'MethodCall' and len(b_['ch']) == len(names) and \
+                all(p_.get('k') == 'Binding' for p_ in e.get('params', [])) and \
+                all(peel(a_).get('k') == 'Path' and peel(a_).get('local') == p_.get('local')
+                    for a_, p_ in zip(b_['ch'], e['params'])) and b_.get('callee'):
+            return '::'.join(strip_generics(b_['callee']).split('::')[-2:])
         return '|%s| %s' % (', '.join(names), body_)
     t = try_operand(e)
     if t is not None:
